@@ -85,6 +85,8 @@ def _check_notes(ctx, key, ns, sig):
 
 
 def check_key(ctx, key):
+    _failing_calls_elsewhere()
+    _clear_cache()
     n = T.KEY_SIG[key]
     minor = T.key_is_minor(key)
     major_key, minor_key = T.KEYS[n]
@@ -315,6 +317,18 @@ CHECKS = {"order": check_order, "key": check_key, "signum": check_signum, "candi
 
 def _shard(seq, shard, nshards):
     return seq[shard::nshards]
+
+
+def _failing_calls_elsewhere():
+    """questions to other theory modules that are rejected half-way: they must leave the key tables alone"""
+    from mingus.core import chords as _ch, notes as _nt, scales as _sc
+    for f, args in ((intervals.determine, ("G", "H")), (intervals.determine, ("A", "h", True)), (_ch.determine, (["C", "H", "G"],)),
+                    (_nt.note_to_int, ("H",)), (intervals.from_shorthand, ("X", "3")), (_sc.determine, (["C", "H"],)),
+                    (intervals.measure, ("C", "J")), (_ch.from_shorthand, ("Hm7",))):
+        try:
+            f(*args)
+        except Exception:  # noqa - rejected, as it should be
+            pass
 
 
 def check_key_lists(ctx, which):
